@@ -1,6 +1,7 @@
 //! `vh` - verification harness: runs the real iggy code (built from /repo's working tree) on
 //! traces given as JSON lines on stdin and prints one JSON observation line per trace.
 mod common;
+mod journal;
 mod perm;
 mod route;
 mod srv;
@@ -8,7 +9,7 @@ mod srv;
 fn main() {
     let mode = std::env::args().nth(1).unwrap_or_default();
     let rt = tokio::runtime::Builder::new_multi_thread()
-        .worker_threads(2)
+        .worker_threads(4)
         .enable_all()
         .build()
         .unwrap();
@@ -17,6 +18,9 @@ fn main() {
         "hash" => route::hash_main(),
         "perm" => perm::main(),
         "srv" => rt.block_on(srv::main()),
+        "journal-make" => rt.block_on(journal::make()),
+        "journal-load" => journal::load(&rt),
+        "journal-race" => rt.block_on(journal::race()),
         _ => {
             eprintln!("usage: vh <mode>");
             std::process::exit(2);
